@@ -116,6 +116,34 @@ def run(rep, props, replay=None):
                             rep.violation("transform(method='InnPro') changes the fitted Gram eigenvectors", {**opts, "X": C.hexf(X), "x": C.hexf(x)})
                         t = runq.add(f"score_cov_ok {C.qlit(1e-7 * sc * sc)} {n} {C.qlist(lam)} {C.qmat(Si)}")
                         todo.append((t, None, "Gram-based scores uncorrelated with variance lambda (inner-product method)", key, opts))
+                    # curves recorded in small units (the same curves times 2^-20): every power of two scales the intermediates
+                    # exactly, so eigenvalues scale by 2^-40, natural scores by 2^-20, eigenfunctions not at all
+                    if not normalize and ncomp == r:
+                        c2 = 2.0 ** -20
+                        try:
+                            with warnings.catch_warnings():
+                                warnings.simplefilter("ignore")
+                                f2 = fit(fd.dense(x, X * c2), method, False, ncomp)
+                                lam2 = np.asarray(f2.eigenvalues, float)
+                                Phi2 = np.asarray(f2.eigenfunctions.values, float)
+                                S2 = np.asarray(f2.transform(None, method="NumInt" if method == "covariance" else "InnPro"), float)
+                            Sref = S0 if method == "covariance" else Si
+                            rep.case(("small-units", X.tobytes(), method, ncomp), kind="scale/small-units")
+                            bad2 = []
+                            if lam2.shape != lam.shape or np.max(np.abs(lam2 - lam * c2 * c2)) > 1e-7 * c2 * c2 * float(np.max(lam)):
+                                bad2.append(f"eigenvalues {lam2.tolist()} are not 2^-40 times {lam.tolist()}")
+                            elif not np.all(np.isfinite(Phi2)) or np.max(np.abs(np.abs(Phi2) - np.abs(Phi))) > 1e-6 * max(1.0, float(np.max(np.abs(Phi)))):
+                                bad2.append("eigenfunctions change with the unit of the curves")
+                            elif S2.shape != Sref.shape or not np.all(np.isfinite(S2)) or \
+                                    np.max(np.abs(np.abs(S2) - np.abs(Sref) * c2)) > 1e-6 * c2 * max(1e-300, float(np.max(np.abs(Sref)))):
+                                bad2.append("natural scores are not 2^-20 times the scores of the original curves (their variances are no "
+                                            "longer the reported eigenvalues)")
+                            if bad2:
+                                rep.violation(f"UFPCA({method}, n_components={ncomp}) on the same curves in small units (x 2^-20): " + "; ".join(bad2),
+                                              {**opts, "X": C.hexf(X), "x": C.hexf(x), "factor": c2})
+                        except Exception as e:  # noqa: BLE001
+                            rep.violation(f"UFPCA({method}) on curves in small units (x 2^-20) raised {type(e).__name__}: {e}"[:300],
+                                          {**opts, "X": C.hexf(X), "x": C.hexf(x), "factor": c2})
                     # inverse_transform: affine model on training scores and on random scores
                     Srand = np.round(rng.normal(size=(3, len(lam))) * 8) / 8
                     for Sx, nm in ((S0, "training"), (Srand, "random")):
